@@ -62,6 +62,12 @@ func VH_C20_Observer() {
 	var seen *pokertable.Table
 	calls := 0
 	obr.OnTableStateUpdated(func(x *pokertable.Table) { seen = x; calls++ })
+	// other observers exist in the same process, configured before or after this one, in
+	// either mode: what they are set to is their own business
+	if verifrt.Bool("otherObserver") {
+		other := NewObserverRunner()
+		other.EnabledSystemMode(verifrt.Bool("otherSystem"))
+	}
 
 	// the runner may have been shown snapshots before: an earlier copy of the very same hand
 	// state (only the table around it changed: a reservation, a join, an extension ...), or
@@ -156,5 +162,8 @@ func VH_C20_Isolation() {
 	verifrt.Assert(verifrt.Disjoint(seen1, seen2), "actors' copies share no memory with each other")
 	verifrt.Assert(verifrt.SameState(snap, engineTable), "engine's table is unchanged by what the observer hides")
 	verifrt.Assert(verifrt.SameState(snap, seen2), "the other actor still sees the full snapshot")
+	if seen1.State.GameState != nil {
+		verifrt.Assert(len(seen1.State.GameState.Meta.Deck) == 0 && len(seen1.State.GameState.Status.Burned) == 0, "the non-system observer's copy is filtered whatever the other actor's mode is")
+	}
 	verifrt.Reach("end")
 }
